@@ -29,6 +29,8 @@ type BVB = BitVec<Box<[usize]>>;
 type Plain = EliasFano;
 type C1 = EliasFano<SelectZeroAdapt<SelectAdapt<AddNumBits<BVB>>>>;
 type C2 = EliasFano<SelectZeroAdapt<Select9<Rank9<BVB>>>>;
+/// small inventories: every one of a span is recorded (quantum 1), so span-class boundaries matter
+type C3 = EliasFano<SelectZeroAdaptConst<SelectAdaptConst<BVB, Box<[usize]>, 5, 3>, Box<[usize]>, 5, 3>>;
 
 enum Ef {
     Plain(Plain),
@@ -37,6 +39,7 @@ enum Ef {
     SeqDict(EfSeqDict),
     C1(C1),
     C2(C2),
+    C3(C3),
 }
 
 enum Ph {
@@ -82,6 +85,7 @@ macro_rules! with_any {
             Ef::SeqDict($e) => $body,
             Ef::C1($e) => $body,
             Ef::C2($e) => $body,
+            Ef::C3($e) => $body,
         }
     };
 }
@@ -92,6 +96,7 @@ macro_rules! with_seq {
             Ef::SeqDict($e) => Some($body),
             Ef::C1($e) => Some($body),
             Ef::C2($e) => Some($body),
+            Ef::C3($e) => Some($body),
             _ => None,
         }
     };
@@ -103,6 +108,7 @@ macro_rules! with_dict {
             Ef::SeqDict($e) => Some($body),
             Ef::C1($e) => Some($body),
             Ef::C2($e) => Some($body),
+            Ef::C3($e) => Some($body),
             _ => None,
         }
     };
@@ -113,6 +119,7 @@ macro_rules! with_both {
             Ef::SeqDict($e) => Some($body),
             Ef::C1($e) => Some($body),
             Ef::C2($e) => Some($body),
+            Ef::C3($e) => Some($body),
             _ => None,
         }
     };
@@ -261,6 +268,10 @@ fn build_backend(ef: Plain, be: &str) -> Ef {
             })),
             "custom2" => Ef::C2(
                 ef.map_high_bits(|b| SelectZeroAdapt::new(Select9::new(Rank9::new(b)), 3)),
+            ),
+            "custom3" => Ef::C3(
+                ef.map_high_bits(SelectAdaptConst::<_, _, 5, 3>::new)
+                    .map_high_bits(SelectZeroAdaptConst::<_, _, 5, 3>::new),
             ),
             _ => panic!("unknown backend"),
         }
@@ -596,7 +607,7 @@ fn exec(ctx: &mut Ctx, s: &mut S, op: &str) {
 
 // ------------------------------------------------------------------------------------ generator
 
-const BACKENDS: &[&str] = &["plain", "seq", "dict", "seqdict", "custom1", "custom2"];
+const BACKENDS: &[&str] = &["plain", "seq", "dict", "seqdict", "custom1", "custom2", "custom3"];
 const M: usize = usize::MAX;
 
 fn gen_n(ctx: &mut Ctx) -> usize {
@@ -856,7 +867,48 @@ fn directed_case(ctx: &mut Ctx, n: usize, u: usize, xs: &[usize], mode: &str, qs
     }
 }
 
+/// Sequences whose upper-bits vector has an inventory span (32 ones, back-end `custom3`; also
+/// observed through the other back-ends) of exactly `span` bits, the last one of the span at offset
+/// `span - 1`: 63 copies of 100, then `68 + span` twice, then a slow climb; n = 40000, u = 70000, l = 0
+fn span_boundary_case(ctx: &mut Ctx, span: usize, bes: &[&str]) {
+    let (n, u) = (40_000usize, 70_000usize);
+    let mut xs: Vec<usize> = vec![100; 63];
+    let b = 68 + span;
+    for i in 63..n {
+        xs.push(Ord::min(u, b + (i - 63) / 10));
+    }
+    for be in bes {
+        ctx.case();
+        let mut s = fresh();
+        exec(ctx, &mut s, &format!("from_slice {}", fmt_list(xs.iter())));
+        exec(ctx, &mut s, &format!("build {}", be));
+        if s.xs.is_none() {
+            continue;
+        }
+        exec(ctx, &mut s, "len");
+        for i in [0usize, 31, 32, 62, 63, 64, 65, 95, 96, 97, n / 2, n - 1, n] {
+            exec(ctx, &mut s, &format!("get {}", i));
+        }
+        exec(ctx, &mut s, "iter_from 62");
+        exec(ctx, &mut s, "into_iter_from 64");
+        for q in [99usize, 100, 101, b - 1, b, b + 1, u] {
+            for o in ["succ", "pred", "index_of", "succ_strict", "pred_strict"] {
+                exec(ctx, &mut s, &format!("{} {}", o, q));
+            }
+        }
+        ctx.shape(format!("span-boundary:{}:{}", span, be));
+    }
+}
+
 fn directed(ctx: &mut Ctx) {
+    if ctx.tier == Tier::Quick {
+        span_boundary_case(ctx, 65537, &["custom3", "seq"]);
+        span_boundary_case(ctx, 65536, &["custom3"]);
+    } else {
+        for span in [65535usize, 65536, 65537, 65538] {
+            span_boundary_case(ctx, span, BACKENDS);
+        }
+    }
     // the example of the documentation (D7: pred above u; D8: iter_from(len))
     directed_case(ctx, 4, 10, &[0, 2, 8, 10], "push", &[12, 1000, 6, 11]);
     directed_case(ctx, 4, 10, &[0, 2, 8, 10], "cset", &[12, 1000]);
